@@ -179,6 +179,18 @@ def explore(ctx):
             r["coverage"][k] = r["coverage"].get(k, 0) + r2["coverage"].get(k, 0)
         r["coverage"]["profiles"].update(r2["coverage"]["profiles"])
         r["coverage"]["samples"] += r2["coverage"]["samples"]
+        # version index with MANY entries (several B+tree leaves, inserts between existing entries): complete forward and
+        # backward histories through the index against the specification
+        G.ProgGen = VGen
+        pf3 = [dict(name="index-volume", opts=[OPTS[3]], keys=["6b%02x" % i for i in range(48)], max_tx=2, length=(500, 700))]
+        r3 = G.explore_profiles(dict(ctx, seed=ctx["seed"] + 177), "C10", pf3, lambda l, e: sum(1 for x in l if x.split()[1] == "commit") >= 100,
+                                classify=classify, n_quick=6, n_thorough=80)
+        r["violations"] += r3["violations"]
+        r["known"] += r3["known"]
+        r["disagreements"] += r3["disagreements"]
+        for k in ("evaluations", "distinct_nontrivial", "programs", "disagreements_checked", "failing_programs"):
+            r["coverage"][k] = r["coverage"].get(k, 0) + r3["coverage"].get(k, 0)
+        r["coverage"]["profiles"].update(r3["coverage"]["profiles"])
     finally:
         G.ProgGen = orig
     r = CK.merge(r, CK.explore(ctx, "C10", versioning=True, n_quick=1500, n_thorough=20000))
